@@ -12,6 +12,7 @@ RULE = ("each case runs propka.run.single with a random -g grid and -w window, t
         "rows against the window. Non-trivial: >= 2 titratable groups with shifted pKa and a grid whose "
         "maximum lies on the grid; distinct = distinct (structure digest, grid, window)."
         " 30 % of the cut-outs carry 1-3 ligands / nucleotides (custom model pKa values enter the unfolded charge and the folding energy alike).")
+RULE = RULE + " Rounds 10-12: one-point grids; the charge curves of every conformation are held against that conformation's own groups."
 ASSUMPTIONS = ["linkage tolerance 2e-5*(1+N/10) for h=1e-3; Simpson tolerance 1e-4*(1+N/10)",
                "window rows: multiples of the window step counted from 0; windows are generated with "
                "end points on multiples of the step",
